@@ -13,6 +13,7 @@ import LinVerif.Lemmas.C13Interval
 import LinVerif.Lemmas.C13Lookup
 import LinVerif.Lemmas.C13Zone
 import LinVerif.Lemmas.C13ZoneContract
+import LinVerif.Lemmas.C13Ladder
 import LinVerif.Lemmas.C13Planner
 
 namespace LinVerif.Props.C13
@@ -653,6 +654,53 @@ theorem fixed_zone_satisfies_contract (off : Int) :
     ZoneOK (Zone.fixed off) ∧ HourAligned (Zone.fixed off) :=
   Lemmas.C13.fixed_zone_ok off
 
+/-! ## interval ladders: validation, segment directories, planner/storage agreement -/
+
+/-- `Intervals.IsValid()` accepts a ladder iff its interval types are pairwise distinct — whatever the
+order of the list -/
+theorem ladder_valid_iff_types_distinct (ivs : List Int) :
+    ladderValid ivs = true ↔ (ivs.map intervalType).Nodup :=
+  Lemmas.C13.ladderValid_iff ivs
+
+/-- `DatabaseOption.Validate()` (Ahead/Behind unset): ok iff non-empty with pairwise distinct types -/
+theorem validate_ok_iff (ivs : List Int) :
+    validateOption ivs = .ok ↔ ivs ≠ [] ∧ (ivs.map intervalType).Nodup := by
+  cases ivs with
+  | nil => simp [validateOption]
+  | cons a r =>
+    simp only [validateOption, List.isEmpty_cons, Bool.false_eq_true, if_false, ne_eq,
+      reduceCtorEq, not_false_eq_true, true_and]
+    rw [← Lemmas.C13.ladderValid_iff]
+    split <;> simp_all
+
+/-- a valid ladder's interval segments live in pairwise distinct directories
+(`shard/<id>/segment/<type>`) -/
+theorem valid_ladder_segment_dirs_distinct (ivs : List Int) (h : ladderValid ivs = true) :
+    (ivs.map segmentDirName).Nodup :=
+  Lemmas.C13.dirs_nodup ((Lemmas.C13.ladderValid_iff ivs).1 h)
+
+/-- planner and storage agree on the interval: the storage interval the planner picks is the one
+the storage resolves its interval type to -/
+theorem planner_storage_resolved (st : Stmt) (ivs : List Int) (p : Plan) (hv : ladderValid ivs = true)
+    (h : calcTimeRangeAndInterval st ivs = some p) :
+    resolveByType ivs (intervalType p.storageInterval) = some p.storageInterval :=
+  Lemmas.C13.find_of_nodup ((Lemmas.C13.ladderValid_iff ivs).1 hv) (planner_interval_stored st ivs p h)
+
+/-! ## interval text and time windows -/
+
+/-- `ValueOf(String(v)) = v` for positive whole-second intervals (number/unit level; the decimal
+digits are strconv's and fmt's) -/
+theorem interval_text_roundtrip (v : Int) (h0 : 0 < v) (hd : 1000 ∣ v) :
+    valueOfParts (intervalParts v) = v :=
+  Lemmas.C13.parts_roundtrip v h0 hd
+
+/-- `CalcTimeWindows` of the day / month calculators is the number of hour / UTC-day families the
+range `[a, b]` touches (the year calculator's is an estimate in 30-day units: modelled, not claimed) -/
+theorem time_windows_exact (a b : Int) (ha : 0 ≤ a) (hab : a ≤ b) :
+    calcTimeWindows .day a b = b / 3600000 - a / 3600000 + 1 ∧
+    calcTimeWindows .month a b = b / 86400000 - a / 86400000 + 1 :=
+  ⟨Lemmas.C13.timeWindows_day ha hab, Lemmas.C13.timeWindows_month ha hab⟩
+
 /-! ## non-vacuity -/
 
 -- 2024-02-29T12:34:56.789Z (leap day): the three calculators
@@ -799,6 +847,24 @@ theorem broker_bodies :
     C13.brokerFamilyIteratorFields = ["groupEnd int", "groupStart int", "groupFamilyTime int64", "sameFamily bool", "rows familySortedRows", "intervalCalc timeutil.IntervalCalculator"] :=
   ⟨rfl, rfl, rfl, rfl, rfl, rfl⟩
 
+theorem ladder_bodies :
+    C13.isValidBody = ["intervalMap := make(map[timeutil.IntervalType]Interval)", "for _, i := range m { intervalType := i.Interval.Type() exist, ok := intervalMap[intervalType] if ok { return fmt.Errorf(\"duplicate interval type,[%s(%s),%s(%s)]\", exist.String(), intervalType.String(), i.String(), intervalType.String()) } intervalMap[intervalType] = i }", "return nil"] ∧
+    C13.validateBody = ["if len(e.Intervals) == 0 { return errors.New(\"intervals cannot be empty\") }", "if err := e.Intervals.IsValid(); err != nil { return err }", "if err := validateInterval(e.Ahead, false); err != nil { return err }", "if err := validateInterval(e.Behind, false); err != nil { return err }", "return nil"] ∧
+    C13.shardIntervalSegmentPathBody = ["return filepath.Join(shardPath(database, shardID), segmentDir, interval.Type().String())"] ∧
+    C13.shardSegmentPathBody = ["return filepath.Join(shardPath(database, shardID), segmentDir, interval.Type().String(), name)"] :=
+  ⟨rfl, rfl, rfl, rfl⟩
+
+theorem interval_text_bodies :
+    C13.intervalStringBody = ["val := i.Int64()", "switch { case val%timeutil.OneYear == 0 && val/timeutil.OneYear > 0: return fmt.Sprintf(\"%dy\", val/timeutil.OneYear) case val%timeutil.OneMonth == 0 && val/timeutil.OneMonth > 0: return fmt.Sprintf(\"%dM\", val/timeutil.OneMonth) case val%timeutil.OneDay == 0 && val/timeutil.OneDay > 0: return fmt.Sprintf(\"%dd\", val/timeutil.OneDay) case val%timeutil.OneHour == 0 && val/timeutil.OneHour > 0: return fmt.Sprintf(\"%dh\", val/timeutil.OneHour) case val%timeutil.OneMinute == 0 && val/timeutil.OneMinute > 0: return fmt.Sprintf(\"%dm\", val/timeutil.OneMinute) default: return fmt.Sprintf(\"%ds\", val/timeutil.OneSecond) }"] ∧
+    C13.intervalValueOfBody = ["intervalBytes := []byte(strings.ReplaceAll(intervalStr, \" \", \"\"))", "if len(intervalBytes) <= 1 { return ErrUnknownInterval }", "unixSuffix := string(intervalBytes[len(intervalBytes)-1])", "valuePrefix := string(intervalBytes[:len(intervalBytes)-1])", "var unit int64", "switch unixSuffix { case \"s\", \"S\": unit = timeutil.OneSecond case \"m\": unit = timeutil.OneMinute case \"h\", \"H\": unit = timeutil.OneHour case \"d\", \"D\": unit = timeutil.OneDay case \"M\": unit = timeutil.OneMonth case \"y\", \"Y\": unit = timeutil.OneYear default: return ErrUnknownInterval }", "value, err := strconv.ParseInt(valuePrefix, 10, 64)", "if err != nil { return ErrUnknownInterval }", "*i = Interval(value * unit)", "return nil"] :=
+  ⟨rfl, rfl⟩
+
+theorem time_windows_bodies :
+    C13.dayCalcTimeWindowsBody = ["t1 := start / timeutil.OneHour * timeutil.OneHour", "t2 := end / timeutil.OneHour * timeutil.OneHour", "return int((t2-t1)/timeutil.OneHour) + 1"] ∧
+    C13.monthCalcTimeWindowsBody = ["t1 := time.Unix(start/1000, 0)", "t1 = time.Date(t1.Year(), t1.Month(), t1.Day(), 0, 0, 0, 0, time.Local)", "t2 := time.Unix(end/1000, 0)", "t2 = time.Date(t2.Year(), t2.Month(), t2.Day(), 0, 0, 0, 0, time.Local)", "return int(t2.Sub(t1).Hours()/24) + 1"] ∧
+    C13.yearCalcTimeWindowsBody = ["t1 := time.Unix(start/1000, 0)", "t1 = time.Date(t1.Year(), t1.Month(), 0, 0, 0, 0, 0, time.Local)", "t2 := time.Unix(end/1000, 0)", "t2 = time.Date(t2.Year(), t2.Month(), 0, 0, 0, 0, 0, time.Local)", "return int(t2.Sub(t1).Hours()/24/30) + 1"] :=
+  ⟨rfl, rfl, rfl⟩
+
 end Tie
 
 /-! ## what fix 8adefd6 repaired: the previous variant of `segment.GetDataFamilies`
@@ -889,6 +955,18 @@ theorem dst_half_hour_day_family_overlaps :
     calcFamilyTimeZ Zone.lordHoweApr2024 .day 1712498399999 = 1712496600000 ∧
     calcSegmentTimeZ Zone.lordHoweApr2024 .day 1712495400000 = 1712408400000 ∧
     calcSegmentTimeZ Zone.lordHoweApr2024 .day 1712498399999 = 1712496600000 := by decide
+
+/-- Why `IsValid` must not depend on the order: the ladder `[10s, 1h, 1m]` has two day-type
+intervals; it is rejected. Were it accepted (a check comparing only neighbouring elements accepts
+it), the 10 s and 1 m interval segments would share the directory `day`, and the storage would
+resolve the planner's storage interval 1 m (day type) to the 10 s segment. -/
+theorem unsorted_duplicate_type_ladder :
+    ladderValid [10000, 3600000, 60000] = false ∧
+    validateOption [10000, 3600000, 60000] = .duplicate ∧
+    segmentDirName 10000 = segmentDirName 60000 ∧
+    (calcTimeRangeAndInterval ⟨60000, ⟨1709254740000, 1709254803000⟩, false⟩ [10000, 60000, 3600000]).map
+      (·.storageInterval) = some 60000 ∧
+    resolveByType [10000, 60000, 3600000] (intervalType 60000) = some 10000 := by decide
 
 end Neg
 
